@@ -25,7 +25,9 @@ EXPLANATION = (
     'implements both directions, and every marker key a writer emits '
     '(_deconstructed, _enum) is tested by the reader dispatch; R-C06.6 '
     'FieldSignature.deserialize decides whether to load an attribute from the '
-    'presence of its key, never from its value.')
+    'presence of its key, never from its value; R-C06.7 the mapping type the '
+    'storage loader produces (json.loads object_pairs_hook) is accepted by '
+    'the type guard in front of every marker test of the reader dispatch.')
 NOT_DECIDED = (
     'Round-trip equality for all values (nested Q/F/expressions, unicode, '
     'enums, legacy pickles) - needs execution.')
@@ -575,6 +577,93 @@ def r5_dispatch_symmetry(ctx):
                         key='marker-untested:%s' % mk)
 
 
+DICT_SUBTYPES = {'dict': {'dict', 'OrderedDict', 'defaultdict', 'SortedDict'},
+                 'Mapping': {'dict', 'OrderedDict', 'defaultdict',
+                             'SortedDict'},
+                 'OrderedDict': {'OrderedDict'}}
+
+
+def r7_loader_type_accepted(ctx):
+    """The mapping type the storage loader produces must be a type the reader
+    dispatch accepts in front of its marker tests: json.loads(...,
+    object_pairs_hook=OrderedDict) hands OrderedDicts to a dispatch that
+    tests `type(value) is dict` -> the marker is never seen."""
+    ctx.rule('R-C06.7')
+    p = ctx.program
+    to_py = p.func('models', 'SignatureField.to_python')
+    loader_types = set()
+    loads = [c for c in walk_no_nested(to_py.node)
+             if isinstance(c, ast.Call) and dotted(c.func) == 'json.loads']
+    ctx.floor('json.loads calls in SignatureField.to_python', len(loads), 1)
+    for c in loads:
+        hook = kwarg(c, 'object_pairs_hook') or kwarg(c, 'object_hook')
+        if hook is None:
+            loader_types.add('dict')
+        elif isinstance(hook, (ast.Name, ast.Attribute)):
+            loader_types.add((dotted(hook) or '?').split('.')[-1])
+        else:
+            loader_types.add('?')
+    disp = p.func('serialization', '_get_serializer_for_value')
+    # cls = type(value)
+    type_aliases = {'type(value)'}
+    for n in walk_no_nested(disp.node):
+        if isinstance(n, ast.Assign) and len(n.targets) == 1 and \
+                isinstance(n.targets[0], ast.Name) and \
+                unparse(n.value) == 'type(value)':
+            type_aliases.add(n.targets[0].id)
+    guards = 0
+    for b in walk_no_nested(disp.node):
+        if not (isinstance(b, ast.BoolOp) and isinstance(b.op, ast.And)):
+            continue
+        marker = None
+        for v in b.values:
+            for c in ast.walk(v):
+                if isinstance(c, ast.Call) and call_name(c) == 'get' and \
+                        c.args and (const_str(c.args[0]) or '').startswith('_'):
+                    marker = const_str(c.args[0])
+        if marker is None:
+            continue
+        # the marker test must be a direct operand of this conjunction
+        if not any(isinstance(v, ast.Compare) and any(
+                isinstance(c, ast.Call) and call_name(c) == 'get'
+                for c in ast.walk(v)) for v in b.values):
+            continue
+        accepted = None
+        exact = False
+        for v in b.values:
+            if isinstance(v, ast.Compare) and len(v.ops) == 1 and \
+                    isinstance(v.ops[0], (ast.Is, ast.Eq)) and \
+                    unparse(v.left) in type_aliases and \
+                    isinstance(v.comparators[0], ast.Name):
+                accepted, exact = {v.comparators[0].id}, True
+            elif isinstance(v, ast.Call) and call_name(v) == 'isinstance' \
+                    and len(v.args) == 2 and unparse(v.args[0]) == 'value':
+                t = v.args[1]
+                names = [x.id for x in (t.elts if isinstance(t, ast.Tuple)
+                                        else [t]) if isinstance(x, ast.Name)]
+                accepted = set()
+                for nm in names:
+                    accepted |= DICT_SUBTYPES.get(nm, {nm})
+        guards += 1
+        if accepted is None:
+            ctx.ok(disp, 'marker %r is tested without a type guard' % marker,
+                   b)
+            continue
+        missing = sorted(t for t in loader_types if t not in accepted)
+        if missing:
+            ctx.finding(disp, b, 'the reader dispatch recognises the %r '
+                        'marker only for %s%s, but the storage loader '
+                        '(SignatureField.to_python) produces %s: stored '
+                        'Q/F/enum values are never rebuilt' % (
+                            marker, 'type ' if exact else 'instances of ',
+                            '/'.join(sorted(accepted)), '/'.join(missing)),
+                        key='marker-type-guard:%s' % marker)
+        else:
+            ctx.ok(disp, 'marker %r guard accepts the loader\'s mapping '
+                   'type(s) %s' % (marker, sorted(loader_types)), b)
+    ctx.floor('type-guarded marker tests in the reader dispatch', guards, 2)
+
+
 def r6_presence_not_value(ctx):
     """Whether a stored attribute is loaded must depend on the key being
     present, never on its value (explicit None / False / 0 are values)."""
@@ -629,3 +718,4 @@ def run(ctx):
     r3_storage_framing(ctx)
     r4_json_closure(ctx)
     r5_dispatch_symmetry(ctx)
+    r7_loader_type_accepted(ctx)
